@@ -148,7 +148,7 @@ func c07SetupExtra(c *fw.Ctx, env *c07Env, ids []string) {
 	}
 }
 
-func c07ExtraRequests(env *c07Env) (reqs [][]c07Obj) {
+func c07ExtraRequests(env *c07Env, thorough bool) (reqs [][]c07Obj) {
 	byName := map[string]c07Obj{}
 	for _, o := range env.all {
 		byName[o.Name] = o
@@ -171,9 +171,10 @@ func c07ExtraRequests(env *c07Env) (reqs [][]c07Obj) {
 		pick("commit", "commitA", "commitB", "tag", "tagA", "tagB", "tree1", "tree2", "treeA", "treeB"),
 		pick("far1", "mid", "far2"), pick("far2", "mid", "far1"), pick("far2"),
 		pick("t1", "t16", "t17a", "t17b", "t18a", "t18b", "t19a", "t19b", "t40a", "t40b"))
+	reqs = append(reqs, pick("t17a", "t17b"), pick("t18a", "t18b"), pick("t40a", "t40b"), pick("t16", "t17a"), pick("t17a"), pick("t18b"))
 	tiny := pick("t16", "t17a", "t17b", "t18a", "t18b", "t40a", "t40b")
 	for _, sub := range fw.Subsets(len(tiny), 2) {
-		if len(sub) == 0 {
+		if len(sub) == 0 || !thorough { // quick: the six requests above
 			continue
 		}
 		var r []c07Obj
@@ -183,7 +184,10 @@ func c07ExtraRequests(env *c07Env) (reqs [][]c07Obj) {
 		reqs = append(reqs, r)
 	}
 	chain := env.all[env.nCore : env.nCore+env.nChain]
-	reqs = append(reqs, chain[10:30], chain[:52], chain[5:])
+	reqs = append(reqs, chain[10:30], chain[:52])
+	if thorough {
+		reqs = append(reqs, chain[5:])
+	}
 	var odd, holed []c07Obj
 	for i, o := range chain {
 		if i%2 == 1 {
